@@ -3,6 +3,7 @@ package main
 import (
 	"bufio"
 	"bytes"
+	"context"
 	"encoding/json"
 	"fmt"
 	"net/http"
@@ -11,6 +12,7 @@ import (
 	"regexp"
 	"strings"
 	"sync"
+	"time"
 )
 
 type regCase struct {
@@ -76,7 +78,16 @@ func runRegChild(lines []string, out *bufio.Writer) {
 			continue
 		}
 		for i, op := range c.Ops {
-			fmt.Fprintf(out, "%s impl op%d %s\n", c.ID, i, oneOp(op))
+			res, ok := watch(func() string { return oneOp(op) })
+			fmt.Fprintf(out, "%s impl op%d %s\n", c.ID, i, res)
+			if !ok {
+				// the call neither returned nor panicked: abandon this process
+				for j := i + 1; j < len(c.Ops); j++ {
+					fmt.Fprintf(out, "%s impl op%d notrun\n", c.ID, j)
+				}
+				out.Flush()
+				os.Exit(0)
+			}
 		}
 	}
 }
@@ -91,7 +102,9 @@ func runRegistry(lines []string, out *bufio.Writer) {
 		go func(i int) {
 			defer wg.Done()
 			defer func() { <-sem }()
-			cmd := exec.Command(os.Args[0], "regchild")
+			cctx, cancel := context.WithTimeout(context.Background(), 60*time.Second)
+			defer cancel()
+			cmd := exec.CommandContext(cctx, os.Args[0], "regchild")
 			cmd.Stdin = strings.NewReader(lines[i] + "\n")
 			var buf, ebuf bytes.Buffer
 			cmd.Stdout = &buf
